@@ -362,6 +362,36 @@ def run(ck):
         ck.verdict(bad is None, 'C13.d', fn, cast.where(u.fn(fn)),
                    'prefix then exactly (buf, n); reports prefix length + n; nothing emitted after a refusal' if bad is None else bad)
 
+    # a refused prefix (encode_prefix < 0) ends the call: nothing is emitted and nothing but the refusal is reported
+    for fn in ('flenp_memory_to_sink', 'flenp_chunks_to_sink', 'flenp_chunks_use', 'flenp_memory_encode'):
+        ps = paths(fn)
+        if ps is None:
+            continue
+        bad = None
+        nref = 0
+        for p in ps:
+            ep = p.calls('encode_prefix')
+            if len(ep) != 1:
+                if p.end == 'return' and not p.loops:
+                    bad = 'path without exactly one encode_prefix: %s' % p.describe(3)
+                continue
+            r = ep[0].result
+            refused_possible = eng.feasible(p.cond_terms() + [('cmp', '<', r, C(0))])
+            if not refused_possible:
+                continue
+            after = [e for e in p.effects[p.effects.index(ep[0]) + 1:] if e.kind in ('call', 'icall') and e.name in ('sink_put_chunk', 'sink_put_octet')]
+            if after:
+                bad = 'sink_put_chunk at %s is reached although encode_prefix may have refused the length (its result is not known to be >= 0 there)' % after[0].where()
+            elif p.end == 'return':
+                if strip_cast(p.ret) == r:
+                    nref += 1
+                else:
+                    bad = 'returns %s on a path where encode_prefix may have refused (%s): the refusal is not reported' % (fmt(p.ret), p.describe(3))
+        if bad is None and nref < 1:
+            bad = 'no path returns the refusal of encode_prefix'
+        ck.verdict(bad is None, 'C13.d', fn + ':refusal', cast.where(u.fn(fn)),
+                   'a negative encode_prefix result is returned unchanged before any emission; every emission and success return lies behind result >= 0' if bad is None else bad)
+
     # ---- C13.c chunks -------------------------------------------------------------------
     for fn, chunks_base in (('flenp_chunks_use', ('+', ('v', 'lpc'), None)), ('flenp_chunks_to_sink', ('v', 'oc'))):
         ps = paths(fn)
@@ -385,18 +415,30 @@ def run(ck):
                     after = p.mem.get(k_, h)
                     inc = L(after) - L(h)
                     terms = sorted(fmt(a) for a in inc.atoms())
-                    if len(inc.t) == 2 and sorted(inc.t.values()) == [-1, 1] and any('used' in t for t in terms) and any('offset' in t for t in terms):
+                    pos = [a for a, c_ in inc.t.items() if c_ == 1]
+                    neg = [a for a, c_ in inc.t.items() if c_ == -1]
+                    idxs = [hh for kk, (hh, pre) in lmap.items() if pre is not None and 'active' in fmt(pre)]
+                    if (len(inc.t) == 2 and inc.c == 0 and len(pos) == 1 and len(neg) == 1 and pos[0][0] == 'f' and neg[0][0] == 'f'
+                            and pos[0][2] == 'used' and neg[0][2] == 'offset' and pos[0][1] == neg[0][1]
+                            and any(sym.contains(pos[0][1], hh) for hh in idxs)):
                         sum_ok = True
                     else:
-                        bad = 'accumulator grows by %s per chunk, expected used - offset' % inc
+                        bad = 'accumulator grows by %s per chunk, expected chunk[i].used - chunk[i].offset of the chunk under the loop index' % inc
                 inl = [e for e in sk if e.inloop]
                 for e in inl:
                     emit_seen = True
                     ptr, cnt = e.args[1], e.args[2]
                     # ptr = chunk[i].data + chunk[i].offset ; cnt = used - offset of the same chunk
                     pf, cf = fmt(ptr), fmt(cnt)
-                    if not ('data' in pf and 'offset' in pf):
-                        bad = 'emitted region starts at %s, expected data+offset of the chunk' % pf
+                    cnt0 = strip_cast(cnt)
+                    if not (cnt0[0] == '-' and cnt0[1][0] == 'f' and cnt0[2][0] == 'f' and cnt0[1][1] == cnt0[2][1]
+                            and cnt0[1][2] == 'used' and cnt0[2][2] == 'offset'):
+                        bad = 'emitted count is %s, expected used - offset of the chunk' % cf
+                    else:
+                        X = cnt0[1][1]
+                        dptr = L(ptr) - L(('f', X, 'data')) - L(('f', X, 'offset'))
+                        if not (dptr.is_const() and dptr.c == 0):
+                            bad = 'emitted region starts at %s, expected data + offset of the same chunk (its unread octets)' % pf
                     bbinv = []
                     if cnt[0] == '-' and cnt[1][0] == 'f' and cnt[2][0] == 'f' and cnt[1][1] == cnt[2][1] \
                             and cnt[1][2] == 'used' and cnt[2][2] == 'offset':
